@@ -318,6 +318,61 @@ func c08RandomSchedule(r *Rng, n int, liveClaims bool) func(w *c08World, i int) 
 	}
 }
 
+// c08RaceWorld / c08RaceSchedule: the neighbourhood of the known finding
+// C08:instance-recreated-during-xrd-teardown. The XRD is being deleted while a claim is
+// still live; the schedule lets the definition reconcile get some way, possibly lets the
+// XR controller finalize the XR, then runs a reconcile of the LIVE claim (real bind/sync
+// path, outside the model) for a random number of calls before the definition reconcile
+// continues. Whether the window is hit depends on the drawn counts.
+func c08RaceWorld(r *Rng) c08Scn {
+	b := &c08Builder{r: r}
+	f := []string{definition.VerifC08Finalizer}
+	if r.Bool() {
+		f = append(f, offered.VerifC08Finalizer)
+	}
+	xi := b.add(c08Obj{Kind: "xrd", Name: c08XRDName, Fins: f, Del: true, Ref: c08XRCRD, Of: c08ClaimCRD})
+	b.add(c08Obj{Kind: "crd", Name: c08XRCRD, Owners: []c08Owner{{Idx: xi, Ctrl: true, Block: true}}})
+	if r.Bool() {
+		b.add(c08Obj{Kind: "crd", Name: c08ClaimCRD, Owners: []c08Owner{{Idx: xi, Ctrl: true, Block: true}}})
+	}
+	b.add(c08Obj{Kind: "claim", Name: "ns/c1", Fins: []string{claim.VerifC08Finalizer}, Ref: "x1", Flag: r.Bool()})
+	if r.Chance(2, 3) {
+		b.add(c08Obj{Kind: "xr", Name: "x1", Fins: []string{composite.VerifC08Finalizer}, Del: r.Bool(), Ref: "ns/c1"})
+	}
+	return c08Scn{Objs: b.objs, Running: c08CtrlNames(), Steps: []c08Step{}}
+}
+
+func c08RaceSchedule(r *Rng) func(w *c08World, i int) (c08Step, bool) {
+	var script []c08Step
+	tid := 0
+	run := func(ctl, name string, steps int) {
+		script = append(script, c08Step{Op: "spawn", C: ctl, Name: name})
+		for j := 0; j < steps; j++ {
+			script = append(script, c08Step{Op: "step", T: tid, O: "ok"})
+		}
+		tid++
+	}
+	run("defined", c08XRDName, r.Range(0, 6))
+	if r.Chance(3, 4) {
+		run("xr", "x1", r.Range(1, 3))
+	}
+	d2 := tid
+	run("defined", c08XRDName, r.Range(3, 6))
+	if r.Chance(1, 4) {
+		script = append(script, c08Step{Op: "gc"})
+	}
+	run("claim", "ns/c1", r.Range(0, 9))
+	for j, m := 0, r.Range(0, 3); j < m; j++ {
+		script = append(script, c08Step{Op: "step", T: d2, O: "ok"})
+	}
+	return func(w *c08World, i int) (c08Step, bool) {
+		if i >= len(script) {
+			return c08Step{}, false
+		}
+		return script[i], true
+	}
+}
+
 // c08Class summarises a run: family / teardown writes and waits that happened /
 // environment and fault kinds that occurred (d=user delete by kind, g=GC step that
 // changed something, u=third-party finalizer removal, c=crash, f=injected error or
@@ -574,6 +629,11 @@ func init() {
 		}
 		for i := 0; i < c.N; i++ {
 			r := c.Rng.Fork()
+			if r.Chance(1, 60) {
+				s2, obs, mons := c08Run(c08RaceWorld(r), c08RaceSchedule(r))
+				c.Emit(s2, obs, mons, "liveclaim/"+c08Class("race", s2, obs))
+				continue
+			}
 			s, fam := c08GenWorld(r)
 			n := r.Range(8, 45)
 			// 1 scenario in 40 of the families with an XRD also schedules live-claim reconciles
